@@ -319,7 +319,13 @@ func (w *World) DrawTxKind(t *rapid.T, kind string, from int, nonce uint64, bal 
 	case "name-setowner":
 		s.Type = types.TxType_GOVERNANCE
 		s.Recipient = []byte(types.AergoName)
-		s.Payload = callInfo("v1setOwner", KeyN(rapid.IntRange(0, w.NUsers-1).Draw(t, "ctrOwner")).Enc())
+		owner := KeyN(rapid.IntRange(0, w.NUsers-1).Draw(t, "ctrOwner")).Enc()
+		if rapid.IntRange(0, 5).Draw(t, "specialOwner") == 0 {
+			// names of system accounts decode as addresses too
+			owner = rapid.SampledFrom([]string{types.AergoName, types.AergoSystem, types.AergoVault, types.AergoEnterprise}).Draw(t, "ownerName")
+			s.Desc = "owner=" + owner
+		}
+		s.Payload = callInfo("v1setOwner", owner)
 	case "enterprise":
 		s.Type = types.TxType_GOVERNANCE
 		s.Recipient = []byte(types.AergoEnterprise)
